@@ -445,13 +445,21 @@ func runHandler(t *testing.T, name string, n hx.N) {
 		h := m.handler()
 		allowNull := !hx.Known("P10")
 		var lastOK []byte
+		type okPayload struct {
+			payload []byte
+			keys    []string
+		}
+		var okHistory []okPayload // every successfully delivered rule list, for re-submission after clears and errors
 		var model []string // sorted keys in force
 		sawOK, sawBad, sawLater, sawNull := false, false, false, false
 		nd := rapid.IntRange(1, 8).Draw(t, "deliveries")
 		for i := 0; i < nd; i++ {
-			kind := rapid.IntRange(0, 5).Draw(t, "kind")
+			kind := rapid.IntRange(0, 6).Draw(t, "kind")
 			if kind == 5 && lastOK == nil {
 				kind = 0
+			}
+			if kind == 6 && len(okHistory) == 0 {
+				kind = 1
 			}
 			switch kind {
 			case 0, 1: // a rule list in the module's wire format, possibly with null elements
@@ -496,6 +504,7 @@ func runHandler(t *testing.T, name string, n hx.N) {
 					t.Fatalf("%s: after delivering %s the rules in force are\n  %v\nwant the valid rules of the list\n  %v", m.name, payload, got, model)
 				}
 				lastOK = payload
+				okHistory = append(okHistory, okPayload{payload, model})
 				if sawBad {
 					sawLater = true
 				}
@@ -558,6 +567,18 @@ func runHandler(t *testing.T, name string, n hx.N) {
 					t.Fatalf("%s: payload %q left rules in force: %v", m.name, payload, got)
 				}
 				lastOK = payload
+			case 6: // an earlier payload again, after whatever happened since (clear, error, other lists): must be applied
+				h0 := okHistory[rapid.IntRange(0, len(okHistory)-1).Draw(t, "earlier")]
+				err := deliver(t, h, append([]byte{}, h0.payload...))
+				c.Op("deliver an earlier payload again -> err=%v", err)
+				if err != nil {
+					t.Fatalf("%s: an earlier, decodable payload was refused: %v", m.name, err)
+				}
+				model = h0.keys
+				if got := m.current(); fmt.Sprint(got) != fmt.Sprint(model) {
+					t.Fatalf("%s: after delivering (again) %s the rules in force are\n  %v\nwant\n  %v", m.name, h0.payload, got, model)
+				}
+				lastOK = h0.payload
 			case 5: // identical re-delivery: no-op, runtime state undisturbed
 				armed := arm(m)
 				before := m.current()
